@@ -595,6 +595,15 @@ def run(ctx: C.Ctx):
 def replay(data):
     case = data.get("case") or {}
     kind = case.get("kind") if isinstance(case, dict) else None
+    if kind in ("nesting-ladder-default-limit", "nesting-ladder", "stack-room", "expr-in-ladder") and "text" in case:
+        text = case["text"] if case["text"].startswith("from ") else D.N.HEAD + case["text"]
+        room = int(case.get("room", D.DEFAULT_ROOM))
+        r = C.run_impl(D.IMPL, {"cases": [["run", text, room]]}, timeout=1800)[0]
+        print(f"real pipeline with {room} interpreter frames left for each stage" + (" (= emit(parse(text)) at module level, default recursion limit)" if room == D.DEFAULT_ROOM else "") + ":",
+              "parse", r["parse"] or "accepts", "/ emit", (r["emit"] or "ok") if r["parse"] is None else "-")
+        bad = r["parse"] not in (None, "ValueError", "SyntaxError") or r["emit"] not in (None, "ValueError", "SyntaxError")
+        print("still failing" if bad else "no longer failing")
+        return 1 if bad else 0
     if kind == "session":
         scripts = case["scripts in one process"]
         alone = C.run_impl("c11_impl.py", {"cases": [["session", [scripts[-1]], False]], "limit": 30})[0][0]
